@@ -65,6 +65,7 @@ func (sp *SAMLServiceProvider) ValidateEncodedLogoutRequestPOST(encodedRequest s
 		} else if el == nil {
 			return nil, fmt.Errorf("missing transformed logout request")
 		} else {
+			verifPoint("logoutreq.sig", 0, 0)
 			requestSignatureValidated = true
 		}
 	}
